@@ -141,6 +141,9 @@ fn gen_apps(t: &mut Tape) -> Vec<AppSpec> {
                     a.fingerprint = t.option(|t| t.text(10));
                 }
             }
+            // an extra named like a protocol attribute is only sound while the app leaves that attribute unset
+            let set: Vec<&str> = [("fp", a.fingerprint.is_some()), ("cohort", a.cohort[0].is_some()), ("cohorthint", a.cohort[1].is_some()), ("cohortname", a.cohort[2].is_some())].iter().filter(|(_, s)| *s).map(|(k, _)| *k).collect();
+            a.extras.retain(|(k, _)| !set.contains(&k.as_str()));
             apps.push(a);
             continue;
         }
@@ -156,14 +159,20 @@ fn gen_apps(t: &mut Tape) -> Vec<AppSpec> {
             }
             extras.push((k, t.text(8)));
         }
-        apps.push(AppSpec {
-            id,
-            version: gen_version(t),
-            fingerprint: t.option(|t| t.text(10)),
-            cohort: gen_cohort(t),
-            days: t.option(|t| t.u32_biased()),
-            extras,
-        });
+        let fingerprint = t.option(|t| t.text(10));
+        let cohort = gen_cohort(t);
+        // an extra field may be named like a protocol attribute the app does not set (fingerprint / cohort fields left
+        // unset): the library then emits no typed attribute of that name and the extra goes out verbatim, once
+        if t.chance(1, 6) {
+            let free: Vec<&str> = [("fp", fingerprint.is_none()), ("cohort", cohort[0].is_none()), ("cohorthint", cohort[1].is_none()), ("cohortname", cohort[2].is_none())].iter().filter(|(_, unset)| *unset).map(|(k, _)| *k).collect();
+            if !free.is_empty() {
+                let k = free[t.choose(free.len())].to_string();
+                if !extras.iter().any(|(e, _)| *e == k) {
+                    extras.push((k, t.text(8)));
+                }
+            }
+        }
+        apps.push(AppSpec { id, version: gen_version(t), fingerprint, cohort, days: t.option(|t| t.u32_biased()), extras });
     }
     apps
 }
